@@ -138,6 +138,26 @@ def run(ctx: Ctx):
            "query and key are not concatenated in (query, key) order over the feature axis (the weight is laid out as "
            "query_size + key_size)", rel, csa.line)
 
+    # both operands of the concatenation are expanded to the broadcast of BOTH batch shapes
+    rdc_ = ReachingDefs(csa.node)
+    qn, kn = csa.params[0].name, csa.params[1].name
+    exps = [c for c in own_calls(csa.node) if isinstance(c.func, ast.Attribute) and c.func.attr == "expand" and c.args]
+    bad_e = []
+    for c in exps:
+        ps_ = set()
+        for a_ in c.args:
+            # the batch part of the target: everything except a trailing `[x.size(-1)]`
+            parts = [a_.left] if isinstance(a_, ast.BinOp) and isinstance(a_.op, ast.Add) else [a_]
+            for pt_ in parts:
+                ps_ |= rdc_.derives(pt_).params()
+        if not {qn, kn} <= ps_:
+            bad_e.append((c, sorted(ps_)))
+    col.ob("G13", "S2", f"{rel}::_concat_soft_attention::operands-expanded-to-the-common-batch-shape", len(exps) >= 2 and not bad_e,
+           f"`{u(bad_e[0][0])[:70] if bad_e else ''}` expands to a shape computed from {bad_e[0][1] if bad_e else ''} only: query and key "
+           f"must both be expanded to the broadcast of the two batch shapes, otherwise a key with singleton batch dimensions "
+           f"(one encoder sequence shared by a beam) cannot be concatenated with the query", rel,
+           bad_e[0][0].lineno if bad_e else csa.line, sample=[u(c)[:60] for c in exps])
+
     # ---- S3 bias exactly where requested -------------------------------------------------------------------------
     init = pkg.func(f"{MOD}::MultiHeadedAttention.__init__")
     lins = {}
@@ -265,6 +285,7 @@ def _mutants():
     from selftest.mutate import Mutant as M
     A = "_attn.py"
     return [
+        M("common-shape-from-key-only", "_attn.py", "shape = list(broadcast_shapes(query.shape[:-1], key.shape[:-1]))", "shape = list(key.shape[:-1])", "operands-expanded-to-the-common-batch-shape"),
         M("masked-values-only-weighted-out", "_attn.py", "value = torch.where(mask.unsqueeze(-1), value, torch.zeros_like(value))\n", "", "masked-values-cleared-before-the-weighted-sum"),
         M("rank-compared-with-minus-one", "_attn.py", "self.dim == -1", "key_dim == -1", "no-vacuous-rank-test"),
         M("mask-not-negated", A, "e = e.masked_fill(~mask, -float('inf'))", "e = e.masked_fill(mask, -float('inf'))", "masked-scores-are--inf"),
